@@ -939,6 +939,15 @@ pub proof fn lemma_rets_same_entries(b1: Seq<u8>, r1: Seq<RetainedPacket>, b2: S
     }
 }
 
+/// the per-entry facts of compact's loop invariant are exactly same_entries
+pub proof fn lemma_rets_same_entries_of_inv(b1: Seq<u8>, r1: Seq<RetainedPacket>, b2: Seq<u8>, r2: Seq<RetainedPacket>)
+    requires r1.len() == r2.len(),
+        forall|i: int| 0 <= i < r1.len() ==> {
+            let a = #[trigger] r1[i]; let b = r2[i];
+            a.packet_id == b.packet_id && a.len == b.len && a.state == b.state && bytes_of(b1, a) =~= bytes_of(b2, b)
+        },
+    ensures same_entries(b1, r1, b2, r2)
+{}
 pub proof fn lemma_same_entries_sig(b1: Seq<u8>, r1: Seq<RetainedPacket>, b2: Seq<u8>, r2: Seq<RetainedPacket>)
     requires same_entries(b1, r1, b2, r2)
     ensures ret_sig(r1) == ret_sig(r2)
@@ -1437,6 +1446,8 @@ fn compact(&mut self)
     ensures
         bv(*final(self)).len() == bv(*old(self)).len() && same_queues(*final(self), *old(self)),
         rets(bv(*final(self)), final(self).retained@) =~= rets(bv(*old(self)), old(self).retained@),
+        same_entries(bv(*final(self)), final(self).retained@, bv(*old(self)), old(self).retained@),
+        total_len(*final(self)) == total_len(*old(self)),
         compacted(*final(self)),
         ret_sig(final(self).retained@) == ret_sig(old(self).retained@),
         wf(*final(self)),
@@ -1490,6 +1501,7 @@ fn compact(&mut self)
         proof {
             let n = self.retained@.len() as int;
             lemma_prefix_sum_ext(self.retained@, old(self).retained@, n);
+            lemma_rets_same_entries_of_inv(bv(*self), self.retained@, bv(*old(self)), old(self).retained@);
             assert forall|i: int| 0 <= i < n implies (#[trigger] self.retained@[i]).offset == prefix_sum(self.retained@, i) by {
                 lemma_prefix_sum_ext(self.retained@, old(self).retained@, i);
             }
@@ -1517,12 +1529,6 @@ fn scratch_space(&mut self) -> (r: &mut [u8])
         wf(*final(self)) && compacted(*final(self)),
 { proof { reveal(wfs); } 
         self.compact();
-        proof {
-            let n = self.retained@.len() as int;
-            lemma_rets_same_entries(bv(*self), self.retained@, bv(*old(self)), old(self).retained@);
-            lemma_prefix_sum_ext(self.retained@, old(self).retained@, n);
-        }
-
         &mut self.buf[self.used..]
     }
 
@@ -2094,10 +2100,6 @@ where
         r matches Err(e) ==> e is Encode,
 { proof { reveal(wfs); } 
         self.compact();
-        proof {
-            lemma_rets_same_entries(bv(*self), self.retained@, bv(*old(self)), old(self).retained@);
-        }
-
         let start = self.used;
         let (offset, packet) = (match MqttSerializer::encode_with_offset(&mut self.buf[start..], packet) { Ok(__v) => __v, Err(__e) => return Err(From::from(__e)) });
         Ok((start + offset, packet.len()))
@@ -2120,10 +2122,6 @@ fn encode_publish<P: ToPayload, E>(
         r matches Err(PubError::Session(e)) ==> (e == Error::<E>::Resource(ResourceError::BufferTooSmall) || e is InvalidRequest),
 { proof { reveal(wfs); } 
         self.compact();
-        proof {
-            lemma_rets_same_entries(bv(*self), self.retained@, bv(*old(self)), old(self).retained@);
-        }
-
         let start = self.used;
         let (offset, packet) =
             (match MqttSerializer::encode_publish_with_offset(&mut self.buf[start..], header, payload) { Ok(__v) => __v, Err(__e) => return Err(From::from(__e)) });
@@ -3105,6 +3103,7 @@ fn handle_packet(
             }
             ReceivedPacket::Disconnect(disconnect) => {
 
+                (match disconnect.reason_code().as_result() { Ok(__v) => __v, Err(__e) => return Err(From::from(__e)) });
                 return Err(Error::Disconnected);
             }
         }
@@ -5905,6 +5904,201 @@ async fn connect(
             event,
             live: true,
         })
+    }
+}
+
+} // verus!
+
+// ======================================================================================
+// 90_reply: reply helpers — src/publication.rs, src/properties.rs (builders), src/mqtt_client/mod.rs
+// ======================================================================================
+verus! {
+
+#[derive(Copy, Clone)]
+pub struct ResponseTarget<'a> {
+    pub topic: &'a str,
+    pub correlation_data: Option<&'a [u8]>,
+}
+
+/// leaf (Kani: kani/reply.rs, bounded): first Response Topic / Correlation Data property of the block
+pub uninterp spec fn props_response_topic(p: Properties) -> Option<&'static str>;
+pub uninterp spec fn props_correlation(p: Properties) -> Option<&'static [u8]>;
+impl<'a> Properties<'a> {
+    #[verifier::external_body]
+    pub fn response_topic(&'a self) -> (r: Option<&'a str>) ensures r == props_response_topic(*self) { unimplemented!() }
+    #[verifier::external_body]
+    pub fn correlation_data(&'a self) -> (r: Option<&'a [u8]>) ensures r == props_correlation(*self) { unimplemented!() }
+
+fn with_properties(self, properties: &'a [Property<'a>]) -> (r: Self)
+    ensures
+        r.inner == (match self.inner {
+            PropertiesData::WithCorrelation { correlation, properties: _p } => PropertiesData::WithCorrelation { correlation, properties },
+            _ => PropertiesData::Slice(properties),
+        }),
+{
+        match self.inner {
+            PropertiesData::WithCorrelation { correlation, .. } => Self {
+                inner: PropertiesData::WithCorrelation {
+                    correlation,
+                    properties,
+                },
+            },
+            PropertiesData::Slice(_) | PropertiesData::Encoded(_) => Self::from_slice(properties),
+        }
+    }
+fn with_correlation(self, data: &'a [u8]) -> (r: Self)
+    ensures
+        r.inner matches PropertiesData::WithCorrelation { correlation, properties: p } && correlation == Property::CorrelationData(data),
+        r.inner matches PropertiesData::WithCorrelation { correlation, properties: p } && (match self.inner {
+            PropertiesData::Slice(q) => p == q,
+            PropertiesData::WithCorrelation { correlation: _c, properties: q } => p == q,
+            PropertiesData::Encoded(_) => p@.len() == 0,
+        }),
+{
+        let correlation = Property::CorrelationData(data);
+        match self.inner {
+            PropertiesData::Slice(properties)
+            | PropertiesData::WithCorrelation { properties, .. } => Self {
+                inner: PropertiesData::WithCorrelation {
+                    correlation,
+                    properties,
+                },
+            },
+            PropertiesData::Encoded(_) => Self {
+                inner: PropertiesData::WithCorrelation {
+                    correlation,
+                    properties: &[],
+                },
+            },
+        }
+    }
+}
+
+impl<'a, P> Publication<'a, P> {
+fn new(topic: &'a str, payload: P) -> (r: Self)
+    ensures
+        r.topic == topic && r.payload == payload && r.qos == QoS::AtMostOnce && r.retain == Retain::NotRetained
+            && (r.properties.inner matches PropertiesData::Slice(s) && s@.len() == 0),
+{
+        Self {
+            payload,
+            qos: QoS::AtMostOnce,
+            topic,
+            properties: Properties::from_slice(&[]),
+            retain: Retain::NotRetained,
+        }
+    }
+fn qos(self, qos: QoS) -> (r: Self)
+    ensures
+        r.qos == qos && r.topic == self.topic && r.payload == self.payload && r.retain == self.retain && r.properties == self.properties,
+{ let mut self__m = self;
+        self__m.qos = qos;
+        self__m
+    }
+fn retain(self) -> (r: Self)
+    ensures
+        r.retain == Retain::Retained && r.topic == self.topic && r.payload == self.payload && r.qos == self.qos && r.properties == self.properties,
+{ let mut self__m = self;
+        self__m.retain = Retain::Retained;
+        self__m
+    }
+fn properties(self, properties: &'a [Property<'a>]) -> (r: Self)
+    ensures
+        r.topic == self.topic && r.payload == self.payload && r.qos == self.qos && r.retain == self.retain
+            && r.properties.inner == (match self.properties.inner {
+                PropertiesData::WithCorrelation { correlation, properties: _p } => PropertiesData::WithCorrelation { correlation, properties },
+                _ => PropertiesData::Slice(properties),
+            }),
+{ let mut self__m = self;
+        self__m.properties = self__m.properties.with_properties(properties);
+        self__m
+    }
+fn correlate(self, data: &'a [u8]) -> (r: Self)
+    ensures
+        r.topic == self.topic && r.payload == self.payload && r.qos == self.qos && r.retain == self.retain
+            && (r.properties.inner matches PropertiesData::WithCorrelation { correlation, properties: p } && correlation == Property::CorrelationData(data)),
+{ let mut self__m = self;
+        self__m.properties = self__m.properties.with_correlation(data);
+        self__m
+    }
+}
+
+impl<'a> ResponseTarget<'a> {
+fn publication<P>(self, payload: P) -> (r: Publication<'a, P>)
+    ensures
+        r.topic == self.topic && r.payload == payload && r.qos == QoS::AtMostOnce && r.retain == Retain::NotRetained,
+        match self.correlation_data {
+            Some(d) => r.properties.inner matches PropertiesData::WithCorrelation { correlation, properties: p } && correlation == Property::CorrelationData(d) && p@.len() == 0,
+            None => r.properties.inner matches PropertiesData::Slice(s) && s@.len() == 0,
+        },
+{
+        let mut publication = Publication::new(self.topic, payload);
+        if let Some(data) = self.correlation_data {
+            publication = publication.correlate(data);
+        }
+        publication
+    }
+}
+
+impl<'a> InboundPublish<'a> {
+fn topic(&self) -> (r: &'a str)
+    ensures
+        r == self.topic,
+{
+        self.topic
+    }
+fn payload(&self) -> (r: &'a [u8])
+    ensures
+        r == self.payload,
+{
+        self.payload
+    }
+fn retained(&self) -> (r: bool)
+    ensures
+        r == (self.retain == Retain::Retained),
+{
+        matches!(self.retain, Retain::Retained)
+    }
+fn qos(&self) -> (r: QoS)
+    ensures
+        r == self.qos,
+{
+        self.qos
+    }
+fn response_topic(&'a self) -> (r: Option<&'a str>)
+    ensures
+        r == props_response_topic(self.properties),
+{
+        self.properties.response_topic()
+    }
+fn correlation_data(&'a self) -> (r: Option<&'a [u8]>)
+    ensures
+        r == props_correlation(self.properties),
+{
+        self.properties.correlation_data()
+    }
+fn response_target(&'a self) -> (r: Option<ResponseTarget<'a>>)
+    ensures
+        r == (match props_response_topic(self.properties) {
+            Some(t) => Some(ResponseTarget { topic: t, correlation_data: props_correlation(self.properties) }),
+            None => None::<ResponseTarget>,
+        }),
+{
+        Some(ResponseTarget {
+            topic: self.response_topic()?,
+            correlation_data: self.correlation_data(),
+        })
+    }
+fn reply<P>(&'a self, payload: P) -> (r: Option<Publication<'a, P>>)
+    ensures
+        props_response_topic(self.properties) is None ==> r is None,
+        props_response_topic(self.properties) matches Some(t) ==> (r matches Some(p) && p.topic == t && p.payload == payload
+            && (match props_correlation(self.properties) {
+                Some(d) => p.properties.inner matches PropertiesData::WithCorrelation { correlation, properties: q } && correlation == Property::CorrelationData(d) && q@.len() == 0,
+                None => p.properties.inner matches PropertiesData::Slice(s) && s@.len() == 0,
+            })),
+{
+        (match self.response_target() { Some(target) => Some(target.publication(payload)), None => None })
     }
 }
 
